@@ -204,6 +204,7 @@ inductive Tr where
   | dispatched (s : Sig) (n : Nat)              -- dispatch of `s` complete after `n` handlers
   | exit | forceQuit | kill
   | openLevel (q : Nat) | closeLevel (q : Nat)
+  | closeReq (runLoop : Bool) (pending : Nat)    -- close_loop called: `_run_loop` and the number of signals pending in the closing level
   | waitBegin (c : Cls) (t : Nat) | waitEnd (c : Cls) (t : Nat) (released : Bool)
   | procBegin | procEnd
   | stackOp (what : String) (stack : List Entry)
@@ -352,12 +353,12 @@ def windowLines (P : Prog) (scr : Nat) : Except RErr Grid :=
 /-! ### exceptions: unwinding to the nearest catcher -/
 
 /-- drop instructions up to the first catcher that handles `kind`; the catcher's own effect happens here -/
-def unwind (kind : Kind) : (code : List Instr) → (c : Cfg) → Except Outcome Cfg
-  | [], _ =>
+def unwind (kind : Kind) : (code : List Instr) → (c : Cfg) → Except (Outcome × Cfg) Cfg
+  | [], c =>
     match kind with
-    | .sysexit => .error (.killed 1)
-    | .exit => .error (.raised "exit")
-    | .err => .error (.raised "err")
+    | .sysexit => .error (.killed 1, { c with code := [] })
+    | .exit => .error (.raised "exit", { c with code := [] })
+    | .err => .error (.raised "err", { c with code := [] })
   | ins :: rest, c =>
     match kind, ins with
     | .err, .catchHandler =>
@@ -377,7 +378,7 @@ def unwind (kind : Kind) : (code : List Instr) → (c : Cfg) → Except Outcome 
     | .exit, .catchExit => .ok { c with code := rest }
     | _, _ => unwind kind rest c
 
-def Cfg.raise (c : Cfg) (kind : Kind) : Except Outcome Cfg :=
+def Cfg.raise (c : Cfg) (kind : Kind) : Except (Outcome × Cfg) Cfg :=
   let c := match kind with
     | .exit => c.trace .exit
     | _ => c
@@ -388,10 +389,10 @@ def Cfg.raise (c : Cfg) (kind : Kind) : Except Outcome Cfg :=
 def push (c : Cfg) (is : List Instr) : Cfg := { c with code := is ++ c.code }
 
 /-- take the head of the active queue; deliver a typed line first if the queue is empty -/
-def Cfg.take (c : Cfg) : Except Outcome (Sig × Cfg) :=
+def Cfg.take (c : Cfg) : Except (Outcome × Cfg) (Sig × Cfg) :=
   let c := if c.L.activeQ.entries = [] then (c.deliver).getD c else c
   match c.L.activeQ.entries with
-  | [] => .error .blocked
+  | [] => .error (.blocked, c)
   | e :: es =>
     .ok (e.2.2, { c with L := { c.L with queues := listSet c.L.queues c.L.active fun q => { q with entries := es } },
                          tr := .take c.L.active e.2.2 :: c.tr })
@@ -399,7 +400,7 @@ def Cfg.take (c : Cfg) : Except Outcome (Sig × Cfg) :=
 def mark (ts : List Ticket) (c : Cls) : List Ticket := ts.map fun t => if t.line = c then { t with marked := true } else t
 
 /-- `InputThreadManager.start_input_thread` for a new request of handler `ih` -/
-def startRequest (c : Cfg) (ih : Nat) (requester : Src) (text : Str) : Except Outcome Cfg :=
+def startRequest (c : Cfg) (ih : Nat) (requester : Src) (text : Str) : Except (Outcome × Cfg) Cfg :=
   let A := c.A
   let A := { A with ihs := listSet A.ihs ih fun h => { h with received := false, value := none } }
   let r := A.reqs.length
@@ -433,7 +434,7 @@ def classifyRet (r : Ret) (key : Str) : UAction :=
   | .key k => if k = ['r'] then .redraw else if k = ['c'] then .close else if k = ['q'] then .quit else .error
   | _ => if key = ['r'] then .redraw else if key = ['c'] then .close else if key = ['q'] then .quit else .error
 
-def doAct (c : Cfg) (a : Act) : Except Outcome Cfg :=
+def doAct (c : Cfg) (a : Act) : Except (Outcome × Cfg) Cfg :=
   match a with
   | .enq cls prio src sid => .ok (c.enqueue { id := sid, cls := cls, prio := prio, src := src })
   | .regSource src =>
@@ -470,15 +471,15 @@ def doAct (c : Cfg) (a : Act) : Except Outcome Cfg :=
   | .schedRedraw => .ok c.redraw
   | .getUserInput scr _ => .ok (push c [.blockingInput scr false, .note "gui<"])
 
-def step (P : Prog) (c0 : Cfg) : Except Outcome Cfg :=
+def step (P : Prog) (c0 : Cfg) : Except (Outcome × Cfg) Cfg :=
   match c0.code with
-  | [] => .error .returned
+  | [] => .error (.returned, c0)
   | ins :: rest =>
     let c := { c0 with code := rest }
     match ins with
     | .act a => doAct c a
     | .apprun =>
-      if ¬ P.runEmpty ∧ c.A.stack = [] then .error (.raised "NothingScheduled")
+      if ¬ P.runEmpty ∧ c.A.stack = [] then .error (.raised "NothingScheduled", c)
       else .ok (push { c with L := { c.L with forceQuit := false, runLoop := true } } [.mainCheck, .catchExit, .quitCb])
     | .catchExit => .ok c
     | .quitCb =>
@@ -557,7 +558,8 @@ def step (P : Prog) (c0 : Cfg) : Except Outcome Cfg :=
         let q := c.L.queues.length
         let c := { c with L := { c.L with queues := c.L.queues ++ [({} : EQueue)], active := q, levels := c.L.levels ++ [q] } }
         .ok (push ((c.trace (.openLevel q)).enqueue s) [.mainCheck])
-    | .closeLoop => .ok (push (c.trace .procBegin) [.procIter none, .popLevel])
+    | .closeLoop =>
+      .ok (push ((c.trace (.closeReq c.L.runLoop c.L.activeQ.entries.length)).trace .procBegin) [.procIter none, .popLevel])
     | .popLevel =>
       match c.L.levels.getLast? with
       | none => c.raise .err                                   -- IndexError: pop from empty list
@@ -648,7 +650,7 @@ def step (P : Prog) (c0 : Cfg) : Except Outcome Cfg :=
       | .error _ => c.raise .err
       | .ok lines =>
         match printWidget lines (P.spec scr).height with
-        | none => .error .livelock
+        | none => .error (.livelock, c)
         | some evs =>
           -- group consecutive lines into print chunks, requests into blocking inputs
           let rec go (evs : List OutEv) (cur : List Str) (acc : List Instr) : List Instr :=
@@ -673,7 +675,7 @@ def step (P : Prog) (c0 : Cfg) : Except Outcome Cfg :=
       startRequest (push c [.waitInput ih]) ih (.im scr) text
     | .waitInput ih =>
       if (c.A.ihs.getD ih default).received then .ok c
-      else if ¬ c.L.runLoop then .error .livelock
+      else if ¬ c.L.runLoop then .error (.livelock, c)
       else .ok (push c [.procWait .inputReady, .waitInput ih])
     | .inputReceived s =>
       match c.A.inputStack.getLast? with
@@ -734,7 +736,7 @@ def runFuel (P : Prog) : Nat → Cfg → Cfg × Outcome
   | n + 1, c =>
     match step P c with
     | .ok c' => runFuel P n c'
-    | .error o => (c, o)
+    | .error (o, c') => (c', o)
 
 /-- the initial configuration of a case -/
 def initCfg (init : List Act) (handlers : List (Cls × HRef × Option Nat)) (quitCb : Option Nat) (stdin : List Str) : Cfg :=
